@@ -101,6 +101,152 @@ theorem create_ok_sound {pfx : Bool} {s : Shape} {facs : List Factory} {name : S
         exact ⟨this.1, Or.inr ⟨inner, hp, this.2⟩⟩
       · simp at h
 
+/-! ## numeric tokens: `String::parse` accepts numerals only -/
+
+def isDigitC (c : Char) : Bool := (digitVal c).isSome
+
+/-- optional sign (`+`, or `-` where allowed) followed by at least one decimal digit — and nothing else -/
+def IsNumeral (allowMinus : Bool) (s : Str) : Prop :=
+  ∃ pre ds, s = pre ++ ds ∧ (pre = [] ∨ pre = ['+'] ∨ (allowMinus = true ∧ pre = ['-'])) ∧ ds ≠ [] ∧
+    ∀ c ∈ ds, isDigitC c = true
+
+theorem takeDigits_all : ∀ (l : Str) (acc cnt v c : Nat), takeDigits l acc cnt = (v, c, []) →
+    (∀ ch ∈ l, isDigitC ch = true) ∧ c = cnt + l.length
+  | [], acc, cnt, v, c, h => by
+    simp only [takeDigits, Prod.mk.injEq] at h
+    exact ⟨by simp, by simp [h.2.1]⟩
+  | ch :: cs, acc, cnt, v, c, h => by
+    unfold takeDigits at h
+    cases hd : digitVal ch with
+    | none => simp [hd] at h
+    | some d =>
+      simp only [hd] at h
+      have ih := takeDigits_all cs (acc * 10 + d) (cnt + 1) v c h
+      refine ⟨?_, by simp [ih.2]; omega⟩
+      intro x hx
+      rcases List.mem_cons.1 hx with rfl | hx
+      · simp [isDigitC, hd]
+      · exact ih.1 x hx
+
+theorem digits_of_takeDigits {rest : Str} {v cnt : Nat} {unread : Str}
+    (ht : takeDigits rest 0 0 = (v, cnt, unread)) (hc : ¬ (cnt = 0 ∨ unread.isEmpty = false)) :
+    rest ≠ [] ∧ ∀ c ∈ rest, isDigitC c = true := by
+  have hu : unread = [] := by
+    cases unread with
+    | nil => rfl
+    | cons a b => exact absurd (Or.inr rfl) hc
+  subst hu
+  have := takeDigits_all rest 0 0 v cnt ht
+  refine ⟨?_, this.1⟩
+  intro hr
+  subst hr
+  simp at this
+  exact hc (Or.inl this)
+
+/-- what `scanInt` (= the fixed `String::parse` for integers) accepts: the whole trimmed token is a numeral -/
+theorem scanInt_numeral {s : Str} {neg : Bool} {v : Nat} (h : scanInt s = some (neg, v)) :
+    ∃ pre ds, trim s = pre ++ ds ∧ ((pre = [] ∧ neg = false) ∨ (pre = ['+'] ∧ neg = false) ∨ (pre = ['-'] ∧ neg = true)) ∧
+      ds ≠ [] ∧ ∀ c ∈ ds, isDigitC c = true := by
+  unfold scanInt at h
+  simp only at h
+  split at h
+  · rename_i r heq
+    cases htd : takeDigits r 0 0 with
+    | mk v' p =>
+      cases p with
+      | mk cnt unread =>
+        simp only [htd, Bool.or_eq_true, decide_eq_true_eq, Bool.not_eq_true'] at h
+        split at h
+        · simp at h
+        · rename_i hc
+          simp only [Option.some.injEq, Prod.mk.injEq] at h
+          have := digits_of_takeDigits htd hc
+          exact ⟨['-'], r, by simpa using heq, Or.inr (Or.inr ⟨rfl, h.1.symm⟩), this.1, this.2⟩
+  · rename_i r heq
+    cases htd : takeDigits r 0 0 with
+    | mk v' p =>
+      cases p with
+      | mk cnt unread =>
+        simp only [htd, Bool.or_eq_true, decide_eq_true_eq, Bool.not_eq_true'] at h
+        split at h
+        · simp at h
+        · rename_i hc
+          simp only [Option.some.injEq, Prod.mk.injEq] at h
+          have := digits_of_takeDigits htd hc
+          exact ⟨['+'], r, by simpa using heq, Or.inr (Or.inl ⟨rfl, h.1.symm⟩), this.1, this.2⟩
+  · cases htd : takeDigits (trim s) 0 0 with
+    | mk v' p =>
+      cases p with
+      | mk cnt unread =>
+        simp only [htd, Bool.or_eq_true, decide_eq_true_eq, Bool.not_eq_true'] at h
+        split at h
+        · simp at h
+        · rename_i hc
+          simp only [Option.some.injEq, Prod.mk.injEq] at h
+          have := digits_of_takeDigits htd hc
+          exact ⟨[], trim s, by simp, Or.inl ⟨rfl, h.1.symm⟩, this.1, this.2⟩
+
+theorem parseInt_numeral {s : Str} {v : Int} (h : parseInt s = some v) : IsNumeral true (trim s) := by
+  unfold parseInt at h
+  cases hs : scanInt s with
+  | none => simp [hs] at h
+  | some p =>
+    obtain ⟨neg, m⟩ := p
+    obtain ⟨pre, ds, h1, h2, h3, h4⟩ := scanInt_numeral hs
+    refine ⟨pre, ds, h1, ?_, h3, h4⟩
+    rcases h2 with h2 | h2 | h2
+    · exact Or.inl h2.1
+    · exact Or.inr (Or.inl h2.1)
+    · exact Or.inr (Or.inr ⟨rfl, h2.1⟩)
+
+/-- unsigned parameters (refinement count, auto-degree): no minus sign either -/
+theorem parseIndex_numeral {s : Str} {v : Nat} (h : parseIndex s = some v) : IsNumeral false (trim s) := by
+  unfold parseIndex at h
+  cases hs : scanInt s with
+  | none => simp [hs] at h
+  | some p =>
+    obtain ⟨neg, m⟩ := p
+    simp only [hs] at h
+    obtain ⟨pre, ds, h1, h2, h3, h4⟩ := scanInt_numeral hs
+    refine ⟨pre, ds, h1, ?_, h3, h4⟩
+    rcases h2 with h2 | h2 | h2
+    · exact Or.inl h2.1
+    · exact Or.inr (Or.inl h2.1)
+    · rw [h2.2] at h; simp at h
+
+/-- the refinement head: without `*` one refinement, with `*` the count token must be an unsigned numeral -/
+theorem parseRefine_count {m inner : Str} {k : Nat} (h : parseRefine m = some (k, inner)) :
+    ∃ head tail, splitFirst ':' m = some (head, tail) ∧ inner = trim tail ∧
+      ((splitFirst '*' head = none ∧ k = 1 ∧ eqNoCase (trim head) "refine".toList = true) ∨
+       ∃ hd cnt, splitFirst '*' head = some (hd, cnt) ∧ parseIndex cnt = some k ∧ IsNumeral false (trim cnt) ∧
+         eqNoCase (trim hd) "refine".toList = true) := by
+  unfold parseRefine at h
+  split at h
+  · simp at h
+  · rename_i head tail hs
+    refine ⟨head, tail, hs, ?_⟩
+    cases hst : splitFirst '*' head with
+    | none =>
+      simp only [hst] at h
+      split at h
+      · rename_i he
+        simp only [Option.some.injEq, Prod.mk.injEq] at h
+        exact ⟨h.2.symm, Or.inl ⟨rfl, h.1.symm, he⟩⟩
+      · simp at h
+    | some p =>
+      obtain ⟨hd, cnt⟩ := p
+      simp only [hst] at h
+      cases hpi : parseIndex cnt with
+      | none => simp [hpi] at h
+      | some k' =>
+        simp only [hpi, Option.map_some] at h
+        split at h
+        · rename_i he
+          simp only [Option.some.injEq, Prod.mk.injEq] at h
+          obtain ⟨rfl, rfl⟩ := h
+          exact ⟨rfl, Or.inr ⟨hd, cnt, rfl, hpi, parseIndex_numeral hpi, he⟩⟩
+        · simp at h
+
 /-! ## finite checks over the generated factory lists (kernel evaluation) -/
 
 /-- every canonical rule name `name[:n]` resolves to exactly that factory, that `n`, un-refined -/
